@@ -64,7 +64,7 @@ def check(run):
     run.check_proofs('C04', THEOREMS, extra_targets=['theories/Extract/Ex_sync.vo'])
     jbin = vlib.build_judge('sync')
     rng = run.rng
-    n = 200 if run.tier == 'quick' else 4000
+    n = 200 if run.tier == 'quick' else 16000
     scen = family_scenarios(rng)
     for i in range(n):
         sc = sync_e2e.gen_scenario(rng, 'clean')
